@@ -631,6 +631,55 @@ def check_hysc(case, ctx):
     ctx.nontrivial(used >= 2 and (len(nodes) > len(covered) or D >= 3))
 
 
+# --------------------------------------------------------------------------
+# larger inputs with several connected components (degenerate lowest Laplacian eigenvalue):
+# an eigensolver with a random start vector would make the partition depend on more than the seed
+
+
+@st.composite
+def hysc_large_cases(draw, tier):
+    rings = draw(st.integers(2, 4))
+    sizes = [draw(st.integers(26, 40)) for _ in range(rings)]
+    return {"rings": sizes, "tri": draw(st.booleans()), "K": draw(st.sampled_from([2, 3])),
+            "seed": draw(st.integers(0, 50)), "weighted_L": draw(st.booleans())}
+
+
+def check_hysc_large(case, ctx):
+    import importlib
+    from hypergraphx import Hypergraph
+    HySC = importlib.import_module("hypergraphx.communities.hy_sc.model").HySC
+    edges, base = [], 0
+    for n in case["rings"]:
+        for i in range(n):
+            e = (base + i, base + (i + 1) % n)
+            edges.append(tuple(sorted(e)))
+            if case["tri"] and i % 3 == 0:
+                edges.append(tuple(sorted({base + i, base + (i + 1) % n, base + (i + 2) % n})))
+        base += n
+    edges = sorted(set(edges))
+    N = base
+    outs = []
+    for run in range(2):
+        h = Hypergraph(edges)
+        seed_globals(case["seed"] + 7919 * run)
+        with threadpoolctl.threadpool_limits(limits=1):
+            m = np.asarray(HySC(seed=case["seed"]).fit(h, K=case["K"],
+                                                      weighted_L=case["weighted_L"]))
+        outs.append(np.array(m, copy=True))
+    m = outs[0]
+    require(m.shape == (N, case["K"]) and bool(np.all((m == 0) | (m == 1)))
+            and bool(np.all(m.sum(axis=1) == 1)),
+            lambda: "HySC.fit on %d nodes in %d components: not a one-hot N x K matrix (shape %r, "
+            "row sums %r)" % (N, len(case["rings"]), m.shape, sorted(set(m.sum(axis=1).tolist()))),
+            key="hysc-large-valid")
+    require(np.array_equal(outs[0], outs[1]),
+            lambda: "two HySC fits with seed %d on %d nodes in %d components differ in %d rows"
+            % (case["seed"], N, len(case["rings"]), int((outs[0] != outs[1]).any(axis=1).sum())),
+            key="hysc-large-determinism")
+    ctx.label("N=%d" % (N // 25 * 25))
+    ctx.nontrivial(N > 100)
+
+
 CLAUSES = [
     Clause("mt_validity", lambda tier: mt_cases(tier), check_validity,
            quick=200, thorough=900, shards_quick=2,
@@ -651,4 +700,6 @@ CLAUSES = [
            rule="maximum hyperedge size >= 3 or an isolated node present"),
     Clause("hysc", hysc_cases, check_hysc, quick=200, thorough=900, shards_quick=2,
            rule=">= 2 clusters used and (an isolated node or maximum hyperedge size >= 3)"),
+    Clause("hysc_large", hysc_large_cases, check_hysc_large, quick=12, thorough=40,
+           rule="more than 100 nodes in 2-4 connected components"),
 ]
